@@ -48,6 +48,8 @@ def replay(prop, path):
     item = obj.get('replay')
     if prop in ('C01', 'C02', 'C04', 'C10') and isinstance(item, dict) and 'scenario' in item:
         return replay_pool(prop, path, obj, item['scenario'])
+    if isinstance(item, dict) and 'id' not in item and isinstance(item.get('item'), dict):
+        item = item['item']
     if prop not in REPLAYERS or not isinstance(item, dict) or 'id' not in item:
         print(json.dumps(obj, indent=1)[:4000])
         return 0
